@@ -1,4 +1,11 @@
+#[cfg(not(all(feature = "verif", kani)))]
 pub use anyhow::{anyhow, bail, ensure, Error};
+#[cfg(all(feature = "verif", kani))]
+pub use crate::bail;
+#[cfg(all(feature = "verif", kani))]
+pub use self::verif_light::Error;
+#[cfg(feature = "verif")]
+pub use self::verif_hooks::*;
 
 #[derive(Debug, thiserror::Error)]
 pub enum DSError {
@@ -26,4 +33,125 @@ pub enum DSError {
     WrongAddressFamily,
     #[error("Parse error")]
     ParseError,
+}
+
+/// Verification hooks (feature `verif`, off by default). Nothing in here
+/// changes the behaviour of the library: `verif_step()` counts elementary
+/// validation steps, and, only when the crate is compiled by the Kani model
+/// checker, the error carrier is a plain wrapper around `DSError` instead of
+/// `anyhow::Error` (whose backtrace machinery is out of reach for the solver).
+#[cfg(feature = "verif")]
+pub mod verif_hooks {
+    /// Kinds of elementary validation steps
+    pub const VERIF_STEP_COMPRESSED_NAME: usize = 0;
+    pub const VERIF_STEP_UNCOMPRESSED_NAME: usize = 1;
+    pub const VERIF_STEP_EDNS_OPTION: usize = 2;
+    pub const VERIF_STEP_RR: usize = 3;
+    pub const VERIF_STEP_KINDS: usize = 4;
+
+    #[cfg(kani)]
+    pub static mut VERIF_STEPS: [u32; VERIF_STEP_KINDS] = [0; VERIF_STEP_KINDS];
+
+    /// Model checker only. 0: errors are returned as usual. 1: error paths
+    /// end right where the error is raised instead of being explored
+    /// further. 2: raising an error is reported as a failed check (for
+    /// harnesses that expect the operation to succeed), then ends the path.
+    #[cfg(kani)]
+    pub static mut VERIF_CUT_ERRORS: u8 = 0;
+
+    #[cfg(not(kani))]
+    thread_local!(
+        static VERIF_STEPS: std::cell::Cell<[u32; VERIF_STEP_KINDS]> =
+            const { std::cell::Cell::new([0; VERIF_STEP_KINDS]) }
+    );
+
+    #[cfg(kani)]
+    #[inline]
+    pub fn verif_step(kind: usize) {
+        unsafe {
+            VERIF_STEPS[kind] += 1;
+        }
+    }
+
+    #[cfg(not(kani))]
+    #[inline]
+    pub fn verif_step(kind: usize) {
+        VERIF_STEPS.with(|steps| {
+            let mut v = steps.get();
+            v[kind] = v[kind].wrapping_add(1);
+            steps.set(v);
+        })
+    }
+
+    #[cfg(kani)]
+    pub fn verif_steps() -> [u32; VERIF_STEP_KINDS] {
+        unsafe { VERIF_STEPS }
+    }
+
+    #[cfg(not(kani))]
+    pub fn verif_steps() -> [u32; VERIF_STEP_KINDS] {
+        VERIF_STEPS.with(|steps| steps.get())
+    }
+
+    #[cfg(kani)]
+    pub fn verif_steps_reset() {
+        unsafe { VERIF_STEPS = [0; VERIF_STEP_KINDS] }
+    }
+
+    #[cfg(not(kani))]
+    pub fn verif_steps_reset() {
+        VERIF_STEPS.with(|steps| steps.set([0; VERIF_STEP_KINDS]))
+    }
+
+    #[cfg(kani)]
+    #[inline]
+    pub fn verif_cut() {
+        match unsafe { VERIF_CUT_ERRORS } {
+            0 => {}
+            1 => kani::assume(false),
+            _ => {
+                kani::assert(false, "the library raised an error where the harness expects success");
+                kani::assume(false);
+            }
+        }
+    }
+}
+
+#[cfg(all(feature = "verif", kani))]
+pub mod verif_light {
+    use super::DSError;
+
+    #[derive(Debug)]
+    pub struct Error(pub DSError);
+
+    impl From<DSError> for Error {
+        #[inline]
+        fn from(e: DSError) -> Self {
+            Error(e)
+        }
+    }
+
+    impl std::fmt::Display for Error {
+        fn fmt(&self, f: &mut std::fmt::Formatter<'_>) -> std::fmt::Result {
+            self.0.fmt(f)
+        }
+    }
+
+    impl Error {
+        pub fn downcast<T>(self) -> Result<DSError, Self> {
+            Ok(self.0)
+        }
+
+        pub fn downcast_ref<T>(&self) -> Option<&DSError> {
+            Some(&self.0)
+        }
+    }
+
+    #[macro_export]
+    macro_rules! bail {
+        ($e:expr) => {{
+            $crate::errors::verif_hooks::verif_cut();
+            return Err($crate::errors::Error::from($e));
+        }};
+    }
 }
